@@ -134,7 +134,7 @@ class GlobalCipherInitiateRequest(AbstractXDlmsApdu):
         if tag != cls.TAG:
             raise ValueError(f"Tag is not correct. Should be {cls.TAG} but got {tag}")
 
-        length = data.pop(0)
+        length = a_xdr.get_axdr_length(data)
         if length != len(data):
             raise ValueError(f"Octetstring is not of correct length")
 
@@ -154,6 +154,6 @@ class GlobalCipherInitiateRequest(AbstractXDlmsApdu):
         octet_string_data.extend(self.security_control.to_bytes())
         octet_string_data.extend(self.invocation_counter.to_bytes(4, "big"))
         octet_string_data.extend(self.ciphered_text)
-        out.append(len(octet_string_data))
+        out.extend(a_xdr.encode_variable_integer(len(octet_string_data)))
         out.extend(octet_string_data)
         return bytes(out)
